@@ -167,12 +167,70 @@ def butter_rules(chk):
             ok = len(ss) == 1 and ss[0].target_shape == (LinExpr("n"),) and ss[0].value_shape == (LinExpr("n"),)
             # np.pad(record, (before, after), ...) embeds the whole record by construction
             pads = [e for e in r.events("lib-call", BP) if e.name == "numpy.pad" and e.args and "attr:_values" in e.args[0].tags]
-            if not ss and len(pads) == 1:
+            cats_ = [e for e in r.events("lib-call") if e.name == "numpy.concatenate" and e.args and e.args[0].kind in (K_TUPLE, K_LIST) and e.args[0].items and
+                     sum(1 for x in e.args[0].items if "attr:_values" in (x.tags or ()) and x.shape == (LinExpr("n"),) and x.kind == K_ARRAY) == 1]
+            if not ss and not pads and len(cats_) == 1:
+                # np.concatenate((front, record, back)): the whole record is one piece of the padded buffer by construction
+                chk.ob("R-BP-LEN", cc + ".window", "the original record is copied into a window of exactly its own length", True,
+                       derived="the record (shape (n,)) is one piece of the concatenated buffer", loc=cats_[0].loc)
+            elif not ss and len(pads) == 1:
                 chk.ob("R-BP-LEN", cc + ".window", "the original record is copied into a window of exactly its own length",
                        pads[0].args[0].shape == (LinExpr("n"),), derived="np.pad of the record, shape %r" % (pads[0].args[0].shape,), loc=pads[0].loc)
             else:
                 chk.ob("R-BP-LEN", cc + ".window", "the original record is copied into a window of exactly its own length", ok,
                        derived="%s" % [(e.target_shape, e.value_shape) for e in ss], loc=ss[0].loc if ss else fi.loc(), inconclusive=not ss)
+            gibbs_alignment(chk, r, cc, fi)
+
+
+def gibbs_alignment(chk, r, cc, fi):
+    """The record is embedded in the padded buffer at some offset and the filtered buffer is cropped at some offset: the two offsets are
+    the same number for every record length (otherwise the output is the filtered record shifted by the difference).  The embedding is
+    located in three designs (slice store into a buffer; np.concatenate((front, record, back)); np.pad(record, (before, after))); the
+    two offsets are compared as symbolic integers, and when they are different expressions both are constant-folded over sample
+    record lengths -- a witness length refutes, agreement on the samples without identical forms is inconclusive."""
+    from ..values import compare_index_exprs
+    crops = [e for e in r.events("subscript") if e.base is not None and "filter:zero-phase" in e.base.tags and e.index is not None and
+             e.index.kind == K_SLICE and e.index.items is not None]
+    if len(crops) != 1:
+        chk.ob("R-BP-LEN", cc + ".alignment", "the crop of the filtered buffer is located", False, derived="%d slice(s) of the filter output" % len(crops),
+               inconclusive=True, loc=fi.loc())
+        return
+    lo = crops[0].index.items[0]
+    crop = LinExpr(0) if lo is None else lo.sym
+    emb, where = None, None
+    ss = [e for e in r.events("store-shape") if e.value is not None and "attr:_values" in e.value.tags and e.value.kind == K_ARRAY and
+          e.value.shape == (LinExpr("n"),) and e.index is not None and e.index.kind == K_SLICE and e.index.items is not None]
+    cats = [e for e in r.events("lib-call") if e.name == "numpy.concatenate" and e.args and e.args[0].kind in (K_TUPLE, K_LIST) and e.args[0].items and
+            any("attr:_values" in (x.tags or ()) and x.shape == (LinExpr("n"),) for x in e.args[0].items)]
+    pads = [e for e in r.events("lib-call") if e.name == "numpy.pad" and e.args and "attr:_values" in e.args[0].tags and len(e.args) > 1]
+    if len(ss) == 1:
+        lo_ = ss[0].index.items[0]
+        emb, where = (LinExpr(0) if lo_ is None else lo_.sym), ss[0]
+    elif not ss and len(cats) == 1:
+        its = cats[0].args[0].items
+        k = [i for i, x in enumerate(its) if "attr:_values" in (x.tags or ()) and x.shape == (LinExpr("n"),)]
+        if len(k) == 1:
+            tot, ok_ = LinExpr(0), True
+            for x in its[:k[0]]:
+                if x.shape is not None and len(x.shape) == 1 and x.shape[0] is not None:
+                    tot = tot + x.shape[0]
+                else:
+                    ok_ = False
+            if ok_:
+                emb, where = tot, cats[0]
+    elif not ss and not cats and len(pads) == 1:
+        w = pads[0].args[1]
+        if w.kind in (K_TUPLE, K_LIST) and w.items and len(w.items) == 2:
+            emb, where = w.items[0].sym, pads[0]
+    if emb is None or crop is None:
+        chk.ob("R-BP-LEN", cc + ".alignment", "the offset of the record in the padded buffer is located", False,
+               derived="%d slice store(s), %d concatenate(s), %d np.pad of the record; offset not derived" % (len(ss), len(cats), len(pads)),
+               inconclusive=True, loc=crops[0].loc)
+        return
+    verdict, why = compare_index_exprs(emb, crop)
+    chk.ob("R-BP-LEN", cc + ".alignment", "the filtered buffer is cropped at the offset at which the record was embedded", verdict == "equal",
+           derived="embedded at %r, cropped at %r%s" % (emb, crop, "" if verdict == "equal" else " (%s)" % why), inconclusive=verdict == "unknown",
+           loc=crops[0].loc if verdict != "differ" else where.loc, stmt=crops[0].stmt)
 
 
 def _parent_block(root, node):
